@@ -333,6 +333,12 @@ def run_cbmc(q, gb, wd):
     for lab in list(wanted) + maybe_missed:      # a label may occur at several places: missed only if no instance was hit
         if lab not in r.covers_hit and lab not in r.covers_missed:
             r.covers_missed.append(lab)
+    nb = sorted(set((pid or '').split('.no-body.')[-1] for pid, d, _ in r.props_failed if '.no-body.' in (pid or '')))
+    if nb:
+        r.status = 'ERROR'
+        r.detail = 'functions without a body or model (CBMC would havoc them): ' + ', '.join(nb)
+        r.props_failed = []
+        return r
     definite = [x for x in r.props_failed if '[status ' not in x[1]]
     if r.props_failed and not definite:
         r.status = 'INCONCLUSIVE'
